@@ -102,6 +102,89 @@ def real_octets(d):
     return bytes([first, len(eo)]) + eo + mo
 
 
+_REAL_LEN_CYCLE = [0]
+
+
+def real_variant(d, rng):
+    """another valid BER contents octet string (X.690 8.5) of the same double, or None: binary with an even mantissa, a longer
+    exponent field, a scaling factor, base 8 or 16; or an ISO 6093 NR1/NR2/NR3 decimal form (the shortest digits that
+    round-trip to d), padded with leading spaces/zeros to a total length that cycles through 2..40"""
+    if d != d or d in (math.inf, -math.inf) or d == 0:
+        return None
+    bits = struct.unpack(">Q", struct.pack(">d", d))[0]
+    sign = bits >> 63
+    e = (bits >> 52) & 0x7ff
+    m = bits & ((1 << 52) - 1)
+    if e == 0:
+        exp = -1074
+    else:
+        m |= 1 << 52
+        exp = e - 1075
+    while m & 1 == 0:
+        m >>= 1
+        exp += 1
+
+    def binary(base_bits, F, E, N, elen=None, counted=False):
+        eo = int_octets(E)
+        if elen is not None and elen > len(eo):
+            # 8.5.6.4 a)-c): one, two or three exponent octets, no minimality rule (d) has one: see 'counted')
+            eo = (b"\xff" if E < 0 else b"\x00") * (elen - len(eo)) + eo
+        mo = N.to_bytes(max(1, (N.bit_length() + 7) // 8), "big")
+        bb = {1: 0, 3: 1, 4: 2}[base_bits]
+        if len(eo) <= 3 and not counted:
+            return bytes([0x80 | (sign << 6) | (bb << 4) | (F << 2) | (len(eo) - 1)]) + eo + mo
+        return bytes([0x80 | (sign << 6) | (bb << 4) | (F << 2) | 3, len(eo)]) + eo + mo
+    form = rng.choice(["even", "explen", "counted", "scale", "base8", "base16", "dec", "dec", "dec"])
+    if form == "even":
+        k = rng.randrange(1, 9)
+        return binary(1, 0, exp - k, m << k)
+    if form == "explen":
+        return binary(1, 0, exp, m, elen=rng.choice([2, 3]))
+    if form == "counted":
+        # 8.5.6.4 d): exponent length in an octet of its own; the exponent itself must then be minimal
+        return binary(1, 0, exp, m, counted=True)
+    if form == "scale":
+        F = rng.randrange(1, 4)
+        return binary(1, F, exp - F, m)
+    if form in ("base8", "base16"):
+        bbits = 3 if form == "base8" else 4
+        E = exp // bbits
+        return binary(bbits, exp - bbits * E, E, m)
+    r = repr(abs(d))
+    if "e" in r:
+        mant, ex = r.split("e")
+        ex = int(ex)
+    else:
+        mant, ex = r, 0
+    ip, _, fp = mant.partition(".")
+    if fp == "0":
+        fp = ""
+    digits = (ip + fp).lstrip("0") or "0"
+    ex10 = ex - len(fp)
+    sg = "-" if sign else rng.choice(["", "", "+"])
+    nr = rng.choice([1, 2, 3])
+    if nr == 1 and not (ex10 >= 0 and len(digits) + ex10 <= 30):
+        nr = 3
+    if nr == 2 and not (-30 <= ex10 <= 0 or (ex10 > 0 and len(digits) + ex10 <= 30)):
+        nr = 3
+    if nr == 1:
+        body = digits + "0" * ex10
+    elif nr == 2:
+        if ex10 >= 0:
+            body = digits + "0" * ex10 + "." + rng.choice(["", "0", "00"])
+        else:
+            w = digits.rjust(-ex10 + 1, "0")
+            body = w[:ex10] + "." + w[ex10:]
+    else:
+        body = digits + ".E" + rng.choice(["", "+"] if ex10 >= 0 else [""]) + str(ex10)
+    _REAL_LEN_CYCLE[0] = (_REAL_LEN_CYCLE[0] + 1) % 39
+    want = 2 + _REAL_LEN_CYCLE[0]
+    pad = max(0, want - 1 - len(sg) - len(body))
+    nsp = rng.randrange(0, pad + 1)
+    txt = " " * nsp + sg + "0" * (pad - nsp) + body
+    return bytes([nr]) + txt.encode()
+
+
 def string_octets(kind, v):
     if kind in ("OCTET STRING",):
         return bytes(v)
@@ -161,8 +244,9 @@ def time_variant(kind, v, rng, form=None):
 
 
 class Encoder:
-    def __init__(self, mod, emit_defaults=False, shuffle=None, true_octet=0xff, unknown_ext=None, time_forms=None):
+    def __init__(self, mod, emit_defaults=False, shuffle=None, true_octet=0xff, unknown_ext=None, time_forms=None, real_forms=None):
         self.mod = mod
+        self.real_forms = real_forms            # rng: REAL in another valid BER form (X.690 8.5) of the same number
         self.time_forms = time_forms            # rng: GeneralizedTime / UTCTime in a non-DER notation of the same instant
         self.time_kinds = ("UTCTime", "GeneralizedTime")
         self.emit_defaults = emit_defaults      # BER: DEFAULT-equal components may be present
@@ -208,6 +292,11 @@ class Encoder:
         if k == "NULL":
             return Node(cls, num, False, b"")
         if k == "REAL":
+            if self.real_forms is not None and self.real_forms.random() < 0.8:
+                alt = real_variant(v, self.real_forms)
+                if alt is not None:
+                    self.used.add("realform")
+                    return Node(cls, num, False, alt)
             return Node(cls, num, False, real_octets(v))
         if k == "OBJECT IDENTIFIER":
             return Node(cls, num, False, oid_octets(v))
